@@ -210,6 +210,14 @@ def writeForever():
       # Avoid churning CPU when there are no metrics are in the cache
       time.sleep(1)
 
+  # The reactor is shutting down. Datapoints accepted while we were asleep (or
+  # held back by MIN_TIMESTAMP_LAG) are still in the cache: flush them before
+  # the writer thread exits.
+  try:
+    writeCachedDataPoints()
+  except Exception:
+    log.err()
+
 
 def writeTags():
   while True:
